@@ -92,6 +92,8 @@ SCRIPTS = {
               "Pool('P1', [qa, qb]).choose().ask()\n"),
     # graded WITHOUT the automatic TIFA run (skip_tifa=True): TIFA would import the student's modules for real itself
     "plain_notifa": ("from pedal import *\nrun()\n"),
+    # the instructor asks for the parser's own wording of syntax errors (a rarely passed keyword of verify)
+    "verify_native": ("from pedal import *\nfrom pedal.source import verify\nverify(enhance=False)\n"),
     # measures statement coverage of the student's program with the sandbox's coverage tracer and demands 90 %
     "cover": ("from pedal import *\nfrom pedal.sandbox.commands import start_trace\nstart_trace('coverage')\nstudent = run()\nensure_coverage(.9)\n"),
     # graded through the VPL environment (its resolver prints "Grade :=>> N" scaled by a maximum score the script may set)
